@@ -13,6 +13,7 @@
   Nothing in here is used by a theorem; it is part of the tie (trusted like the harness).
 -/
 import PolyVerif.Model.Solids
+import PolyVerif.Model.SolidsTopo
 
 namespace PolyVerif.SolidsOracle
 open PolyVerif PolyVerif.Solids
@@ -218,5 +219,36 @@ def uvBound (k : Float) (rows cols : Nat) : Float :=
 /-- `|V − Vpoly| ≤ reltol·Vana  ∧  Vpoly ≤ Vana (1 + 1e-12)  ∧  Vana − Vpoly ≤ bound·Vana`; any NaN → false -/
 def volumeOK (v vpoly vana bound reltol : Float) : Bool :=
   (v - vpoly).abs ≤ reltol * vana && vpoly ≤ vana * (1.0 + 1e-12) && vana - vpoly ≤ bound * vana && 0.0 < vana
+
+/-! ## vertex-manifoldness / connectedness of label-valued triangle lists -/
+
+/-- fast connectedness on labels `< n`: label propagation (every vertex takes the minimum label of its neighbours)
+    until nothing changes (at most `n` rounds); connected iff all used vertices end with the same label -/
+def connectedFast (n : Nat) (corner : Array Nat) : Bool := Id.run do
+  if corner.size == 0 then return true
+  let mut comp : Array Nat := (List.range (n + 1)).toArray
+  let nt := corner.size / 3
+  for _ in [0:n + 1] do
+    let mut changed := false
+    for t in [0:nt] do
+      let a := corner.getD (3 * t) n; let b := corner.getD (3 * t + 1) n; let c := corner.getD (3 * t + 2) n
+      let m := min (comp.getD a n) (min (comp.getD b n) (comp.getD c n))
+      if comp.getD a n != m then comp := comp.setIfInBounds a m; changed := true
+      if comp.getD b n != m then comp := comp.setIfInBounds b m; changed := true
+      if comp.getD c n != m then comp := comp.setIfInBounds c m; changed := true
+    if !changed then break
+  let c0 := comp.getD (corner.getD 0 n) n
+  return corner.all fun v => comp.getD v n == c0
+
+/-- `VertexManifold ∧ Connected` of the label-valued triangle list: the literal predicates of `Model/SolidsTopo.lean`
+    (`Connected` literally only up to `connLiteralLimit` indices, always cross-checked with / replaced by `connectedFast`) -/
+def connLiteralLimit : Nat := 400
+
+def manifoldConnectedB (n : Nat) (corner : Array Nat) : Bool :=
+  let ts := trisOfArray corner
+  let vm := decide (VertexManifold ts)
+  let cf := connectedFast n corner
+  let cl := if corner.size ≤ connLiteralLimit then decide (Connected ts) else cf
+  vm && cf && cl
 
 end PolyVerif.SolidsOracle
